@@ -74,10 +74,18 @@ class Facts:
         mono = self.raw.get("mono") or {"instances": [], "calls": []}
         self.instances = mono["instances"]
         self.inst_calls = {}
+        self.inst_edges = {}
         for c in mono["calls"]:
+            if "edges" in c:
+                self.inst_edges.setdefault(c["inst"], set()).update(c["edges"])
+                continue
             per = {}
             for b in c["bodies"]:
                 per[b["body"]] = {e[0]: (e[1], e[2]) for e in b["calls"]}
+                for e in b["calls"]:
+                    self.inst_edges.setdefault(c["inst"], set()).add(e[1])
+                    if e[2] is not None:
+                        self.inst_edges.setdefault(c["inst"], set()).add(e[2])
             self.inst_calls[c["inst"]] = per
         self.insts_by_def = {}
         for i, x in enumerate(self.instances):
